@@ -19,6 +19,7 @@ var registry = map[string]func(*core.Run){
 	"C13": checks.C13,
 	"C14": checks.C14,
 	"C16": checks.C16,
+	"C05": checks.C05,
 	"C06": checks.C06,
 	"C07": checks.C07,
 	"C08": checks.C08,
